@@ -101,8 +101,9 @@ def base_dates(sc, text):
     return sorted(set(e.clk for e in evs if e.kind in ("Q", "R")))
 
 
-def crash_key(status, err):
-    """Stable class of a crashed run: sanitizer error kind + first SimGrid frame, or the exit status."""
+def crash_key(status, err, text=""):
+    """Stable class of a crashed run: sanitizer error kind + first SimGrid frame, the failed assertion, or the exit status + the
+    last call announced in the log."""
     lines = err.splitlines()
     for i, l in enumerate(lines):
         if "ERROR: AddressSanitizer" in l or "runtime error:" in l:
@@ -121,7 +122,8 @@ def crash_key(status, err):
             m = re.search(r"(\w+\.[ch]pp):\d+", l)
             return "C10:abort:%s:%s" % (m.group(1) if m else "?", cond.replace(" ", "")), l.strip()[-400:]
     tail = [l for l in lines if l.strip()][-3:]
-    return "C10:crash:%s" % st, " | ".join(tail)[-600:]
+    lastq = [l.split() for l in text.splitlines() if l.startswith("Q ")]
+    return "C10:crash:%s:after-%s" % (st, lastq[-1][4] if lastq else "start"), " | ".join(tail)[-600:]
 
 
 def fault_class(sc, run):
@@ -136,7 +138,7 @@ def judge_run(ctx, fl, sc, run, text, status, err):
         ctx.inconclusive("fault run watchdog")
         return False
     if not status.startswith("rc=0"):
-        key, rep = crash_key(status, err)
+        key, rep = crash_key(status, err, text)
         ctx.violation(key, "the fault run died (%s): %s\nlog tail: %r\nflavour %s, scenario + run:\n%s" % (status, rep, text.splitlines()[-8:], fl, gen.to_text(sc, [run])), w)
         return False
     bad = []
